@@ -84,14 +84,16 @@ PLANS = {
                 "set_flags_p{4,3,2}_entry / translate_page / clean_up / clean_up_addr_range over the three page sizes, pages drawn "
                 "from small collision universes of p4/p3/p2/p1 indices (nested regions, neighbours, both halves, first/last page), "
                 "frames incl. 0, the last frame, decoy data frames and the root frame, hostile allocators, on MappedPageTable "
-                "(arbitrary shuffled frame mapping) and OffsetPageTable (sampled offsets) over simulated physical memory. After EVERY "
+                "(arbitrary shuffled frame mapping), OffsetPageTable (sampled offsets) and RecursivePageTable (software MMU: the "
+                "recursive addresses the real code dereferences fault and are resolved by a hardware-style walk of the simulated "
+                "tables) over simulated physical memory. After EVERY "
                 "call the raw table memory is dumped by an independent hardware-style walker and compared slot by slot with the "
                 "reference model (tree equality decides all 2^48 addresses), and translate/translate_addr/translate_page are compared "
                 "with the walker on a probe set. distinct_nontrivial counts distinct (build, implementation, operation<size>, state "
                 "class the call was made in, outcome) tuples.",
         "assumptions": COMMON_ASSUME + ["leaf flags contain PRESENT, parent flags contain PRESENT and not HUGE_PAGE (as the property states); PAT_HUGE_PAGE (bit 12) is not used in leaf flags",
                                          "OffsetPageTable offsets and frame mappings are those a user process can realise (lower-half, 4 KiB aligned)",
-                                         "RecursivePageTable is driven by the software-MMU engine (see C20 / DESIGN.md §3 E5)"],
+                                         "RecursivePageTable runs under the software MMU (E5) with lower-half recursive indices whose 512 GiB region is free in the process; pages whose p4 index equals the recursive index are excluded"],
         "quick": BOTH_Q, "thorough": BOTH_T,
     },
     "C02": {
@@ -267,5 +269,23 @@ PLANS = {
                                          "the general handler of the harness reads the frame field by field (volatile): with SSE enabled LLVM otherwise emits 16-byte aligned loads on the 8-byte aligned hardware frame"],
         "quick": [{"flavor": "debug", "shards": 2}, {"flavor": "release", "shards": 2}, {"flavor": "opt0", "shards": 2}],
         "thorough": [{"flavor": "debug", "shards": 6}, {"flavor": "release", "shards": 6}, {"flavor": "opt0", "shards": 4}],
+    },
+
+    "C20": {
+        "level": "exploration",
+        "rule": "(a) hook H3 exposes the private p3_page/p2_page/p1_page: for ALL 512 recursive indices (incl. the upper half that a "
+                "user process cannot map) x all 512 p4 x {0,1,255,256,511}^2 (p3,p2) (thorough: x all 512^2 (p4,p3)) x three page "
+                "sizes + random quintuples, the computed table page must equal sign_extend48 of R repeated 3/2/1 times followed by "
+                "the page's upper indices; (b) live: random call histories on the real RecursivePageTable under the software MMU "
+                "(lower-half R sampled among the free 512 GiB regions of the process): every address that faults during an "
+                "operation must be the recursive address of a table of the hierarchy before or after the call; (c) "
+                "RecursivePageTable::new on a reference at [R,R,R,R] under an emulated CR3: slot contents {self+P, self+P+other "
+                "flags, self without P, other frame, zero} x CR3 {that frame with arbitrary low 12 bits, other frames} -> Ok / "
+                "NotActive; near-recursive addresses (one index differing at each position) -> NotRecursive; after Ok the first "
+                "access of the mapper goes to [R,R,R,R]. distinct_nontrivial counts distinct (profile, part, R class, slot kind, "
+                "CR3 kind, result) tuples plus the recursive-history classes.",
+        "assumptions": COMMON_ASSUME + ["a reference at an upper-half or R=0 recursive address cannot exist in a Linux user process: new() and live operation use lower-half indices only, the upper half is covered by (a)"],
+        "quick": [{"flavor": "debug", "shards": 4}, {"flavor": "release", "shards": 4}],
+        "thorough": BOTH_T,
     },
 }
